@@ -75,7 +75,7 @@ class Logger:
 
     def log_node(self, node: Any) -> str:
         """Log fcp node."""
-        lines = self.sources[Path(node.meta.filename).name].split("\n")
+        lines = self.sources[str(node.meta.filename)].split("\n")
         return self.log_location(
             lines[node.meta.line - 1],
             node.meta.line,
